@@ -25,7 +25,8 @@ A *body* is a list of statements; a statement is a list whose first item is its 
     ["CONSTRUCT", uid, kw]       Config(**kw) built and dropped, never entered: must change nothing
     ["PREBUILD", uid, kw]        c_uid = Config(**kw), kept by the actor
     ["ENTER", uid, body]         with c_uid as c: body   (each prebuilt object is entered at most once)
-    ["SPAWN", cid, body]         thread world: threading.Thread; task world: create_task
+    ["SPAWN", cid, body, alt]    thread world: threading.Thread (alt: target=copy_context().run, inherits a snapshot);
+                                 task world: create_task (alt: context=Context(), an empty context)
     ["JOIN", cid]
     ["CTXRUN", body]             contextvars.copy_context().run(...); body is synchronous
     ["SLEEP", d] ["TIMEOUT", d, body] ["CALLSOON"] ["TOTHREAD", body]     task world only
@@ -178,9 +179,11 @@ def gen_swarm(rng: random.Random, profile: dict) -> dict:
     fine = world == 'thread' and rng.random() < profile.get('p_fine', 0.35)
     swarm = {
         'world': world,
-        'actors': rng.choice([1, 2, 2, 2, 3, 3, 4]),
+        'actors': rng.choice([1, 2, 2, 2, 3, 3, 4]) if rng.random() < 0.97 else rng.choice([6, 8]),
         'depth': rng.randint(1, 6),
-        'budget': rng.randint(4, 40 if not heavy else 24),
+        'budget': rng.randint(4, 40 if not heavy else 24) if (heavy or rng.random() < 0.97) else rng.randint(80, 160),
+        # 'tower': one actor is a chain of 10-40 nested blocks unwound by one exception ("any depth")
+        'tower': (not heavy) and rng.random() < 0.04,
         'heavy': heavy,
         'fine': fine,
         'strategy': rng.choice(['random', 'random', 'pct', 'boundary']),
@@ -242,6 +245,28 @@ class _Gen:
                 # 'S' is one dict object shared by every block of the run that uses it
                 kw[name] = rng.choice(['E', 'P', 'E', 'P', 'Y', 'PY', 'S', 'S']) if heavy else rng.choice(['E', 'P', 'S'])
         return kw
+
+    def tower(self) -> list:
+        """A chain of nested blocks, reads on the way down, an exception at the bottom that is
+        caught somewhere in the middle (or kills the actor), reads on the way up."""
+        rng = self.rng
+        height = rng.randint(10, 40)
+        catch_at = rng.randint(0, height - 1)
+        raises = bool(self.faults) and ('raise_exc' in self.faults or 'raise_base' in self.faults)
+        kind = rng.choice(RAISES_EXC if 'raise_exc' in self.faults else RAISES_BASE) if raises else None
+        inner: list = [['READ']]
+        if kind is not None:
+            inner.append(['RAISE', kind])
+        for level in reversed(range(height)):
+            self.uid += 1
+            block = ['BLOCK', self.uid, self.kw(), inner + ([['READ']] if kind is None else [])]
+            body: list = [['READ'], block, ['READ']]
+            if kind is not None and level == catch_at:
+                body = [['READ'], ['TRY', [block], 'base' if kind not in ('cancelled',) else ('cancel' if self.task else 'base')], ['READ']]
+            if self.task and rng.random() < 0.2:
+                body.insert(1, ['SLEEP', rng.choice(SLEEPS)])
+            inner = body
+        return inner
 
     # -- bodies
     def body(self, depth: int, budget: int, sync: bool, in_try: bool, top: bool = False) -> list:
@@ -357,7 +382,7 @@ class _Gen:
             saved, self.prebuilt = self.prebuilt, []
             child = self.body(0, inner, False, False)
             self.prebuilt = saved
-            return ['SPAWN', cid, child], inner + 1
+            return ['SPAWN', cid, child, rng.random() < 0.25], inner + 1
         if kind == 'CTXRUN':
             inner = rng.randint(1, max(1, budget - 1))
             return ['CTXRUN', self.body(depth, inner, True, in_try)], inner + 1
@@ -393,7 +418,10 @@ def generate(seed: int, profile: dict | None = None) -> dict:
             programs.append(body)
         else:
             gen.prebuilt = []
-            programs.append(gen.body(0, swarm['budget'], False, False, top=True))
+            if swarm['tower'] and i == 0:
+                programs.append(gen.tower())
+            else:
+                programs.append(gen.body(0, swarm['budget'], False, False, top=True))
     spec = {
         'version': 1,
         'seed': seed,
